@@ -28,5 +28,5 @@ rc=0
 for C in "$@"; do
   TIER=quick
   case "$C" in *:thorough) TIER=thorough; C="${C%%:*}";; esac
-  VERIF_REPO="$WT" VERIF_OUT="$OUT" "$V/bin/check" "$C" "$TIER" 2>&1 | grep -E "^(RESULT|KNOWN-FINDING|HARNESS-FAULT|  distinct-signature)" | cut -c1-400
+  VERIF_REPO="$WT" VERIF_OUT="$OUT" "$V/bin/check" "$C" "$TIER" 2>&1 | grep -a -E "^(RESULT|KNOWN-FINDING|HARNESS-FAULT|  distinct-signature)" | cut -c1-400
 done
